@@ -132,6 +132,15 @@ CHECKS = {
          "template is a term disequality for all data values; arbitrary leaf formulas are deliberately abstracted.",
     design="3/C09", engine="symx+llsym",
     technique="symbolic execution of the real kernelpy loop on z3 proxies and of the clang LLVM IR of the generated C kernel for the same definition; z3 QF_UFNRA equality obligations; replay with concrete leaf formulas through the real PyKernel and the real DLL"),
+ "C13": dict(
+    text="For the shape:* C models whose parameters carry only table units, the leaf functions are proved, for all q and all parameter values, to be homogeneous "
+         "with exactly the degrees their declared unit strings imply (I-bg ~ lambda^3 mu^2, V ~ lambda^3, R_eff ~ lambda, F/V ~ mu), with arguments bound to table "
+         "slots as the real generated dispatch code binds them: a homogeneity-degree typing over the LLVM IR solved by z3. Models that fail the typing are decided by a "
+         "replayed numeric witness on the compiled DLL (violation) or excluded by name as undecided (onion). Right level: a wrong unit label, swapped arguments of "
+         "different dimension or a dropped factor makes the constraint system unsat for all inputs at once; typing is an unbounded-in-inputs argument under the stated rule table.",
+    design="3/C13", engine="hdeg",
+    technique="homogeneity-degree constraint system (two rational unknowns per SSA value) over the mem2reg'd LLVM IR regenerated from the real generated C source, solved by z3 QF_LRA with tracked assertions (Query 1: typing exists; Query 2: negated expected output degrees unsat); failures diagnosed by unsat core + MaxSAT and counted as violations only with a replayable numeric witness on the compiled DLL",
+    note="Doubles are read as reals. Helpers are typed from their own bodies; only libm is a rule table. Arrays share one degree per array. Comparisons against non-zero literal thresholds are not exempted: they make the model untypable, which is then decided numerically or excluded. The dispersity loop and Python driver (covered by C01), magnetic kernels, the VALID expression, and three models with non-table units or no C source are outside the claim. Typed models are additionally validated numerically at sample points. Seven known findings (formula-level)."),
 }
 
 NOT_YET = "check not built yet in this round (planned in DESIGN.md section 3); not claimed"
